@@ -425,7 +425,7 @@ func ruleEncoder(c *Ctx) {
 		c.inst(1)
 		sp := &Spec{}
 		sp.Classify = func(t *Tracer, fr *Frame, in ssa.Instruction) []Ev {
-			if st, ok := isStoreTo(in, fPath); ok {
+			if st, ok := isStoreToT(t, fr, in, fPath); ok {
 				switch v := st.Val.(type) {
 				case *ssa.Call:
 					if b, ok := v.Call.Value.(*ssa.Builtin); ok && b.Name() == "append" {
